@@ -564,7 +564,19 @@ func (c14) Exec(script interface{}, c *core.Ctx) {
 			p := packet.Packet(op[i])
 			ops = append(ops, &p)
 		}
-		if !c.Call("psi.FilterPMTPacketsToPids(later call, earlier results still held)", func() { psi.FilterPMTPacketsToPids(ops, []int{0x51}) }) {
+		errText := ""
+		if ferr != nil {
+			errText = ferr.Error()
+		}
+		if !c.Call("psi.FilterPMTPacketsToPids(later call, earlier results still held)", func() {
+			psi.FilterPMTPacketsToPids(ops, []int{0x51})
+			psi.FilterPMTPacketsToPids(ops, []int{0x1F70, 0x51, 0x1F71}) // (one with missing PIDs of its own)
+			psi.FilterPMTPacketsToPids(ops, []int{0x1F72})
+		}) {
+			return
+		}
+		if ferr != nil && ferr.Error() != errText {
+			c.Fail("error_contract", "error_text_changed_by_a_later_call", ferr.Error(), errText)
 			return
 		}
 		for i := range outSnap {
